@@ -14,6 +14,7 @@ import (
 	"encoding/json"
 	"fmt"
 	"math/rand"
+	"net"
 	"sync"
 	"sync/atomic"
 	"time"
@@ -492,6 +493,20 @@ func c01record(sc *c01scn, s *vt.Sink) error {
 	cfg := bed.ServerCfg{UDP: true, Medias: sc.NM}
 	if sc.TLS {
 		cfg.TLS = bed.SelfSignedTLS()
+	}
+	if rc.Proto == "udp" && (rc.Reord > 0 || rc.Dup > 0) {
+		// the publisher's datagrams reach the server slightly reordered / duplicated
+		cfg.Extra = func(srv *gortsplib.Server) {
+			srv.ListenPacket = func(network, address string) (net.PacketConn, error) {
+				pc, err := net.ListenPacket(network, address)
+				if err != nil {
+					return nil, err
+				}
+				c := bed.NewReorderConn(pc, rc.Reord, sc.Seed)
+				c.Dup = rc.Dup
+				return c, nil
+			}
+		}
 	}
 	bd, err := bed.Start(cfg)
 	if err != nil {
